@@ -362,25 +362,36 @@ class Maker:
         return [op]
 
     def compute_K(self, S, L, bc, force, real=False):
-        """the state handed in is [cell, cell]: invariant under the translation by half the (enlarged) unit cell"""
+        """random permutations of the sites of the unit cell (the state need not be invariant: ov is then compared with the
+        mixed transfer matrix), the identity (every state is invariant: W, U and ov are fixed by the documentation) and the
+        translation of a lattice ring"""
         rng = self.rng
         m = 'compute_K'
         pcls = self.pick(m, 'perm', force)
-        half = L // 2
-        op = {'op': m, 'perm': [(a + half) % L for a in range(L)], 'invariant': True}
-        if pcls == 'ndarray':
-            op['as_ndarray'] = True
-        elif pcls == 'Lattice':
+        op = {'op': m, 'perm': list(range(L)), 'invariant': True}
+        if pcls == 'Lattice':
             if len(set(S.kinds)) != 1:
                 raise Infeasible()
-            op['lattice'] = [1, L]          # one ring of L sites: translation by one site, the state need not be invariant
+            op['lattice'] = [1, L]          # one ring of L sites: translation by one site
             op['invariant'] = False
             op['perm'] = None
-        elif rng.random() < 0.4:
+        elif rng.random() < 0.6:
+            # (the permuted state has to live on the same sites: only sites of the same kind are exchanged)
             perm = list(range(L))
-            rng.shuffle(perm)
+            for kind in set(S.kinds):
+                idx = [i for i in range(L) if S.kinds[i] == kind]
+                img = list(idx)
+                rng.shuffle(img)
+                for a_, b_ in zip(idx, img):
+                    perm[a_] = b_
+            if perm == list(range(L)):
+                if len(set(S.kinds)) == L:
+                    raise Infeasible()
+                continue_ = True
             op['perm'] = perm
-            op['invariant'] = False
+            op['invariant'] = perm == list(range(L))
+        if pcls == 'ndarray':
+            op['as_ndarray'] = True
         c = self.pick(m, 'swap_op', force)
         if c == 'auto':
             op['swap_op'] = 'auto'
@@ -629,7 +640,9 @@ class Maker:
         rng = self.rng
         m = 'gauge_total_charge'
         if not S.mod:
-            raise Infeasible()
+            if any(k_ != '<bc>' for k_ in force):
+                raise Infeasible()
+            return [{'op': m}]              # documented: nothing to do without charges
         nq = len(S.mod)
 
         def q():
@@ -772,7 +785,7 @@ def gen_goal_case(rng, nrng, SI, goal):
             need_fermi = (m == 'apply_local_op' and cls == 'name-JW') or (m == 'apply_local_term' and cls == 'odd-JW')
             swapcls = force.get('swap_op')
             uniform = (m == 'apply_product_op' and cls in ('single', 'list:divisor')) or (m == 'compute_K' and cls == 'Lattice')
-            charged = True if m == 'gauge_total_charge' or cls == 'other-charge-gauge' else None
+            charged = True if (m == 'gauge_total_charge' and rng.random() < 0.85) or cls == 'other-charge-gauge' else None
             nonfermi = swapcls == 'None'
             D = None
             if bc == 'finite':
@@ -782,7 +795,7 @@ def gen_goal_case(rng, nrng, SI, goal):
                 real = False
             elif bc == 'infinite':
                 if m == 'compute_K':
-                    spec, D = infinite_spec(rng, SI, 2 if cls == 'Lattice' else 1, 2 if cls != 'Lattice' else 3, charged=charged, uniform=uniform, maxcell=9)
+                    spec, D = infinite_spec(rng, SI, 2, 4, charged=charged, uniform=uniform or rng.random() < 0.6, maxcell=16)
                 else:
                     spec, D = infinite_spec(rng, SI, 3 if cls in ('inner',) else 2, 4, charged=charged, uniform=uniform)
                 real = (not spec['build'].get('cplx')) or spec['build']['method'] == 'product'
@@ -797,8 +810,10 @@ def gen_goal_case(rng, nrng, SI, goal):
             if bc == 'infinite':
                 if rng.random() < 0.7:
                     ops.append({'op': 'convert_form', 'forms': G.gen_forms(rng, len(kinds))})
-                if m == 'compute_K' and cls != 'Lattice':
-                    ops.append({'op': 'enlarge_mps_unit_cell', 'factor': 2})
+            elif bc == 'segment' and m in ('extract_segment', 'add', 'group_sites', 'swap_sites', 'permute_sites') and rng.random() < 0.6:
+                # a segment whose outer bases were changed by a canonical_form (recorded in segment_boundaries)
+                S_ = G.Sites(kinds, SI)
+                ops += mk.apply_local_op(S_, len(kinds), bc, {'op': rng.choice(['Array:1', 'Array:2']), 'unitary': 'False'}, real)
             elif rng.random() < 0.5:
                 pre, kinds2 = follow_ups(mk, kinds, bc, SI, real=real)
                 ops += pre
@@ -852,11 +867,11 @@ def gen_enlarged_segment_cases(rng, nrng, SI, reps):
     local operators, enlarged by whole unit cells or to an explicit range"""
     mk = Maker(rng, nrng, SI)
     out = []
-    classes = [('add_unitcells', 'int'), ('add_unitcells', 'pair'), ('new_first_last', 'pair'), ('new_first_last', 'unchanged'),
-               ('cutoff', '1e-12'), ('cutoff', 'default')]
+    classes = [('add_unitcells', 'int'), ('add_unitcells', 'pair'), ('new_first_last', 'pair'), ('new_first_last', 'both-sides'), ('new_first_last', 'whole-finite-chain'),
+               ('new_first_last', 'unchanged'), ('cutoff', '1e-12'), ('cutoff', 'default')]
     for p, c in classes * reps:
         for attempt in range(30):
-            parent_bc = 'infinite' if p == 'add_unitcells' or rng.random() < 0.4 else 'finite'
+            parent_bc = 'infinite' if p == 'add_unitcells' or (rng.random() < 0.4 and c != 'whole-finite-chain') else 'finite'
             spec = segment_spec(rng, SI, parent_bc=parent_bc)
             first, last = spec['segment']
             par = spec['parent']
@@ -866,7 +881,8 @@ def gen_enlarged_segment_cases(rng, nrng, SI, reps):
             ops = []
             try:
                 for _ in range(rng.randint(0, 2)):
-                    o = mk.apply_local_op(S, n, 'segment', {'op': rng.choice(['Array:1', 'Array:2']), 'renormalize': 'default'})
+                    o = mk.apply_local_op(S, n, 'segment', {'op': rng.choice(['Array:1', 'Array:2']), 'renormalize': 'default',
+                                                            'unitary': rng.choice(['False', 'None', 'default'])})
                     ops += o
             except Infeasible:
                 continue
@@ -883,11 +899,17 @@ def gen_enlarged_segment_cases(rng, nrng, SI, reps):
             else:
                 if c == 'unchanged':
                     nf, nl = first, last
+                elif c == 'whole-finite-chain':
+                    nf, nl = 0, Lp - 1
+                elif c == 'both-sides':
+                    nf, nl = first - 1, last + 1
+                    if parent_bc == 'finite' and (nf < 0 or nl > Lp - 1):
+                        continue
                 elif parent_bc == 'finite':
                     nf, nl = rng.randint(0, first), rng.randint(last, Lp - 1)
                 else:
                     nf, nl = first - rng.randint(0, 2), last + rng.randint(0, 2)
-                if p == 'new_first_last' and c == 'pair' and (nf, nl) == (first, last):
+                if p == 'new_first_last' and c != 'unchanged' and (nf, nl) == (first, last):
                     continue
                 op['new_first_last'] = [nf, nl]
             if p == 'cutoff' and c == '1e-12':
@@ -904,8 +926,49 @@ def gen_enlarged_segment_cases(rng, nrng, SI, reps):
     return out
 
 
-def gen_cases(rng, nrng, SI, reps=1):
+REFUSALS = [
+    # (boundary condition of the state, call, documented reason)
+    ('finite', {'op': 'roll_mps_unit_cell', 'shift': 1}, 'roll_mps_unit_cell: "Shift the section we define as unit cell of an infinite MPS"'),
+    ('finite', {'op': 'call', 'method': 'compute_K', 'args': [[1, 0]]}, 'compute_K: "Works for an infinite MPS"'),
+    ('infinite', {'op': 'call', 'method': 'enlarge_mps_unit_cell', 'args': [1]}, 'enlarge_mps_unit_cell(factor): the number of sites is INCREASED to factor*L'),
+    ('infinite', {'op': 'call', 'method': 'enlarge_mps_unit_cell', 'args': [1.5]}, 'enlarge_mps_unit_cell(factor : int)'),
+    ('segment', {'op': 'call', 'method': 'enlarge_mps_unit_cell', 'args': [2]}, 'enlarge_mps_unit_cell: "Repeat the unit cell for infinite MPS boundary conditions"'),
+    ('finite', {'op': 'swap_sites', 'i': 0, 'swap_op': 'fermionic'}, 'swap_sites(swap_op): None | auto | autoInv | Array'),
+    ('finite', {'op': 'compress', 'method': 'exact', 'trunc': {'chi_max': 10}}, "compress: compression_method 'SVD' | 'variational'"),
+    ('finite', {'op': 'call', 'method': 'enlarge_chi', 'args': [[0, 1]]}, 'enlarge_chi(extra_legs): length L+1 for finite'),
+    ('finite', {'op': 'call', 'method': 'apply_product_op', 'args': [['Id', 'Id', 'Id', 'Id', 'Id', 'Id', 'Id']]}, 'apply_product_op: len(ops) has to divide L'),
+    ('segment', {'op': 'call', 'method': 'extract_enlarged_segment', 'args': ['self', 'self', 0, 1]}, 'extract_enlarged_segment: either add_unitcells or new_first_last'),
+    ('finite', {'op': 'call', 'method': 'add', 'args': ['self-infinite', 1., 1.]}, 'add: "Works only for finite, segment boundary conditions"; same length'),
+]
+
+
+def gen_refusal_cases(rng, nrng, SI):
     out = []
+    for bc, call, why in REFUSALS:
+        if bc == 'finite':
+            spec = finite_spec(rng, SI, Lmin=3, Lmax=5)
+            while len(spec['sites']) in (1, 7):
+                spec = finite_spec(rng, SI, Lmin=3, Lmax=5)
+            D = G.build_data(spec, SI)
+        elif bc == 'infinite':
+            spec, D = infinite_spec(rng, SI, 2, 3)
+        else:
+            spec, D = segment_spec(rng, SI), None
+        if call.get('method') == 'add':
+            continue
+        op = dict(call, must_raise=why)
+        if call.get('method') == 'extract_enlarged_segment':
+            continue
+        case = {'state': spec, 'ops': [op], 'want': {}, 'stream': 'refusals', 'goal': ['refusal', bc, call.get('method', call['op']), why]}
+        if bc == 'infinite':
+            dims = [G.std_table(k)[0] for k in spec['sites']]
+            case['want'] = {'rdm': inf_segs(rng, len(spec['sites']), dims)[:4]}
+        out.append((case, D))
+    return out
+
+
+def gen_cases(rng, nrng, SI, reps=1):
+    out = gen_refusal_cases(rng, nrng, SI)
     for goal in goals():
         for _ in range(reps):
             x = gen_goal_case(rng, nrng, SI, goal)
